@@ -24,6 +24,7 @@ import (
 	"sort"
 	"strings"
 
+	"github.com/iden3/go-iden3-core/v2/w3c"
 	"github.com/iden3/go-merkletree-sql/v2"
 	"github.com/iden3/go-schema-processor/v2/merklize"
 	"github.com/iden3/go-schema-processor/v2/verifiable"
@@ -390,4 +391,62 @@ func emitForgedDocumentLists(out *Out, r *Rng) {
 		return
 	}
 	merklize.SetDocumentLoader(s.c.loader())
+}
+
+// the DID resolver's whole document, for the signature proof as for the inclusion proof (c08.go, emitSMTDocShapes): the state entry
+// among verification methods of other types, each with a `published` member of its own. A properly issued and signed credential is
+// accepted exactly when the state entry says published or the state is the genesis state of the issuer's DID (predicate only).
+func emitBJJDocShapes(out *Out, r *Rng) {
+	later := r.Chance(70)
+	s := newVerifySetup(r, later, r.Intn(6))
+	if s.revoked {
+		return
+	}
+	p := s.is.SignBJJ(s.claim)
+	st := p.IssuerData.State
+	if st.Value == nil {
+		return
+	}
+	if n, ok := nonceThroughJSON(s.is.authClaim.GetRevocationNonce()); !ok || n != s.is.authClaim.GetRevocationNonce() {
+		return // known finding F8 has its own cases
+	}
+	stHash, err := merkletree.NewHashFromHex(*st.Value)
+	if err != nil {
+		return
+	}
+	gen := genesisOracle(p.IssuerData.ID, st.Value)
+	isGen, _ := gen.(J)["ok"].(bool)
+	infos := []string{"published", "unpublished", "nil", "published"}
+	if !isGen {
+		infos = append(infos, "absent")
+	}
+	reg := &verifiable.CredentialStatusResolverRegistry{}
+	for _, t := range []verifiable.CredentialStatusType{verifiable.SparseMerkleTreeProof, verifiable.Iden3ReverseSparseMerkleTreeProof, verifiable.Iden3commRevocationStatusV1, verifiable.Iden3OnchainSparseMerkleTreeProof2023} {
+		reg.Register(t, statusResolver{func(cs verifiable.CredentialStatus) (verifiable.RevocationStatus, error) {
+			return s.is.RevStatus(cs.RevocationNonce), nil
+		}})
+	}
+	for _, info := range infos {
+		sh := randSMTDocShape(r, p.IssuerData.ID, stHash.Hex(), info)
+		s.vc.Proof = verifiable.CredentialProofs{p}
+		res := didResolver{f: func(did *w3c.DID) (verifiable.DIDDocument, error) {
+			d := sh.doc
+			d.VerificationMethod = append([]verifiable.CommonVerificationMethod{}, sh.doc.VerificationMethod...)
+			return d, nil
+		}}
+		verr := runVerify(s.vc, verifiable.BJJSignatureProofType, res, reg, s.c.loader())
+		want := info != "absent" && (info == "published" || isGen)
+		var why []string
+		if want && verr != nil {
+			why = append(why, fmt.Sprintf("a properly issued and signed credential is rejected although the state is published or genesis (%v); DID document: %s", verr, sh))
+		}
+		if !want && verr == nil {
+			why = append(why, fmt.Sprintf("signature proof accepted although the state is not the genesis state and the resolver's state entry does not report it published; DID document: %s", sh))
+		}
+		if errClass(verr) == "panic" || errClass(verr) == "hang" {
+			why = append(why, verr.Error())
+		}
+		out.Emit(Case{Op: "none", In: J{"didDocument": J{"info": info, "pos": sh.pos, "types": sh.types, "published": sh.published}, "genesis": gen}, Impl: classify(verr), Prop: propOf(why),
+			Tags: []string{"did-document", "info:" + info, fmt.Sprintf("genesis:%v", isGen)}, NT: true})
+	}
 }
